@@ -28,7 +28,8 @@ CLASSES = ["length_mismatch", "not_N_by_2", "n_below_2_strategy", "n_below_2_wea
 RULE = ("case = invalid-request class (%d classes covering every item of the statement) x random valid surrounding "
         "arguments x, for Weaver entry points, a random valid history of 0..6 operations. non-trivial: Weaver classes "
         "whose pre-state differs from a freshly constructed object, and every function-level rejection; distinct by "
-        "case index." % len(CLASSES))
+        "case index."
+        " Also: fuzzed requests after histories with reshaping (any call ending in ValueError must leave the state untouched), exact zeros that are not samples as missing slicing values, degenerate fixed-point designations next to unknown rule names, and a twin object that never saw the rejected request (later behaviour must be identical)." % len(CLASSES))
 REQUIRED_MONITORS = ["c20:" + c for c in CLASSES] + ["c20:state_snapshot", "c20:fuzzed_request", "c20:fuzzed_rejected", "c20:twin_continuation"]
 ASSUMPTIONS = ["out-of-range fixed-point INDICES and empty query lists are not exercised (outside the statement)"]
 NSHARDS = 16
